@@ -52,6 +52,9 @@ def bvu(inner):
     return d
 
 
+DENSE = {r"SelectIndex.*5build.*\.1$": 50, r"SelectIndex.*5build.*\.0$": 4, r"prefix|c01_": 50}
+DENSE7 = {r"SelectIndex.*5build.*\.1$": 50, r"SelectIndex.*5build.*\.0$": 8, r"prefix|c01_": 50}
+
 PROPS["C01"] = dict(
     module="c01",
     bounds=("rank directory: all contents of 9/17 words; select index: all contents of 2-4 words at concrete rates {1,2,3,64,100,256,4096}; "
@@ -73,6 +76,10 @@ PROPS["C01"] = dict(
         H("c01_selidx_4w_rate100", tier="thorough", timeout=900, bounds="all [u64; 4], rate 100"),
         H("c01_selidx_4w_rate256", tier="quick", timeout=900, bounds="all [u64; 4], rate 256"),
         H("c01_selidx_3w_rate4096", tier="thorough", timeout=900, bounds="all [u64; 3], rate 4096"),
+        H("c01_selidx_dense48_rate100", tier="quick", timeout=1800, unwindset=DENSE, bounds="48-word dense skeleton (1536 ones) with one arbitrary word, rate 100, every k"),
+        H("c01_selidx_dense48_rate255", tier="thorough", timeout=1800, unwindset=DENSE, bounds="same, rate 255"),
+        H("c01_selidx_dense48_rate1000", tier="thorough", timeout=1800, unwindset=DENSE, bounds="same, rate 1000"),
+        H("c01_selidx_dense48_rate7", tier="thorough", timeout=2700, unwindset=DENSE7, bounds="same, rate 7 (220 samples)"),
         H("c01_scan_19_s0_portable", tier="quick", timeout=900, bounds="19 words, start 0, portable block popcount"),
         H("c01_scan_19_s0_avx2", tier="thorough", timeout=900, bounds="19 words, start 0, AVX2 block popcount (modelled)"),
         H("c01_scan_19_s2_any", tier="thorough", timeout=900, bounds="19 words, start 2, dispatch symbolic", replay="trace"),
